@@ -257,3 +257,27 @@ class PyRepo:
             for c in mi.classes.values():
                 for f in c.methods.values():
                     yield mname, f'{c.name}.{f.name}', f, c
+
+
+def self_method_resolver(py: 'PyRepo', ci: ClassInfo, self_value, exclude: tuple = ()):
+    """PyEval resolver for `self.<helper>(..)` inside methods of `ci`: the helper is looked up through the MRO and evaluated in place
+    (static methods without a receiver, class methods with the class); properties and the excluded names stay opaque."""
+    def resolver(call, env, _ev):
+        f = call.func
+        if not (isinstance(f, ast.Attribute) and isinstance(f.value, ast.Name) and env.get(f.value.id) == self_value):
+            return None
+        if f.attr in exclude:
+            return None
+        hit = py.find_method(ci, f.attr)
+        if hit is None:
+            return None
+        g = hit[1]
+        decos = [ast.unparse(d).split('(')[0].split('.')[-1] for d in g.decorator_list]
+        if 'property' in decos or any(d.endswith('setter') for d in decos):
+            return None
+        if 'staticmethod' in decos:
+            return g, None
+        if 'classmethod' in decos:
+            return g, ('name', ci.name)
+        return g, self_value
+    return resolver
